@@ -357,4 +357,38 @@ def storeLine (o : OSt) (line : String) : OSt :=
     | _, _ => o.flag (.bad "crash line")
   | _ => o.flag (.bad s!"line: {line}")
 
+
+/-- DeleteRange(1,to) on 1..n through the PARALLEL path with a refusing handler, then a retry with the handler
+healed (`kind=parfail`).  Pure predicates from the texts of C08 / C14 / C04 on the implementation's observation. -/
+def evalParFail (tag : String) (ins outs : List String) : Verdict :=
+  match kvNat? ins "n", kvNat? ins "to", kvNat? ins "failfrom", kvNat? ins "only",
+        kv? outs "res1", kvNat? outs "tail1", kvNat? outs "head1", (kv? outs "stored1").bind natList?, (kv? outs "keys1").bind natList?,
+        (kv? outs "handled1").bind natList?, kv? outs "res2", kvNat? outs "tail2", kvNat? outs "head2",
+        (kv? outs "stored2").bind natList?, (kv? outs "keys2").bind natList?, kvNat? outs "handledTwice", kvNat? outs "unreadableAtCall" with
+  | some n, some to, some ff, some only, some res1, some tail1, some head1, some stored1, some keys1, some handled1,
+    some res2, some tail2, some head2, some stored2, some keys2, some twice, some unreadable =>
+    let inRange := fun h => 1 ≤ h && h < to
+    let refused := fun h => inRange h && (h == ff || (only == 0 && h > ff))
+    let rest := (List.range (n + 1)).filter fun h => to ≤ h && h ≤ n
+    -- C14
+    if res1 != "err" then .prop "c14_error_returned" s!"res1={res1}" else
+    if unreadable != 0 then .prop "c14_readable_at_call" s!"{unreadable} calls saw an unreadable header" else
+    if (List.range (n + 1)).any (fun h => refused h && !stored1.contains h) then .prop "c14_failure_keeps_header" s!"stored1={stored1}" else
+    if (List.range (n + 1)).any (fun h => inRange h && !stored1.contains h && !handled1.contains h) then
+      .prop "c14_removed_iff_handled" s!"stored1={stored1} handled1={handled1}" else
+    if twice != 0 then .prop "c14_once_per_removed" s!"{twice} heights were handled successfully twice" else
+    -- C08, failed part-way
+    if rest.any (fun h => !stored1.contains h) then .prop "c08_outside_untouched" s!"stored1={stored1}" else
+    if !(stored1.contains tail1 && stored1.contains head1 && tail1 ≤ head1) then .prop "c08_pointers_resolve" s!"tail1={tail1} head1={head1} stored1={stored1}" else
+    if stored1.any (· < tail1) || keys1.any (· < tail1) then .prop "c08_pointers_resolve" s!"headers below Tail {tail1}: stored1={stored1} keys1={keys1}" else
+    -- C08, the retry completes the deletion and leaves nothing behind
+    if res2 != "ok" then .prop "c08_retry_completes" s!"res2={res2}" else
+    if stored2 != rest || keys2 != rest then .prop "c08_retry_completes" s!"after retry stored2={stored2} keys2={keys2}, expected {rest}" else
+    if !rest.isEmpty && !(tail2 == to && head2 == n) then .prop "c08_pointers" s!"tail2={tail2} head2={head2}" else
+    -- C04: between Tail and Head no height is missing, also after a DeleteRange that failed part-way
+    if tag == "C04" && (List.range (n + 1)).any (fun h => tail1 ≤ h && h ≤ head1 && !stored1.contains h) then
+      .prop "c04_gap_free_after_failed_parallel_delete" s!"tail1={tail1} head1={head1} stored1={stored1}"
+    else .ok "parfail"
+  | _, _, _, _, _, _, _, _, _, _, _, _, _, _, _, _, _ => .bad "parfail fields"
+
 end GoHeader.Oracle
